@@ -460,6 +460,43 @@ func main() {
 		L.WriteString("\ndef setResourcesCalls : List String := []\n")
 	}
 
+	// ---- namespace defaulting of parsed objects: one row per case of the switch in initDefaultNamespace:
+	// (case label, the field tested against "", the field assigned) in source order
+	if fd, ok := funcs(parseFile(repo, "pkg/manifests/parser/k8sobj.go"))["K8sObject.initDefaultNamespace"]; ok {
+		var nsRows []string
+		ast.Inspect(fd.Body, func(n ast.Node) bool {
+			cc, ok := n.(*ast.CaseClause)
+			if !ok {
+				return true
+			}
+			var labels []string
+			for _, e := range cc.List {
+				labels = append(labels, text(e))
+			}
+			tested, assigned := "", ""
+			for _, st := range cc.Body {
+				ifs, ok := st.(*ast.IfStmt)
+				if !ok {
+					continue
+				}
+				if be, ok := ifs.Cond.(*ast.BinaryExpr); ok && be.Op == token.EQL && text(be.Y) == `""` {
+					tested = text(be.X)
+				}
+				for _, b := range ifs.Body.List {
+					if as, ok := b.(*ast.AssignStmt); ok && len(as.Lhs) == 1 && len(as.Rhs) == 1 && text(as.Rhs[0]) == "metav1.NamespaceDefault" {
+						assigned = text(as.Lhs[0])
+					}
+				}
+			}
+			nsRows = append(nsRows, fmt.Sprintf("  (%s, %s, %s)", leanStr(strings.Join(labels, ",")), leanStr(tested), leanStr(assigned)))
+			return true
+		})
+		L.WriteString("\n/-- initDefaultNamespace: (kind, field tested against the empty string, field set to `default`) -/\ndef nsDefaulting : List (String × String × String) := [\n" + strings.Join(nsRows, ",\n") + "]\n")
+	} else {
+		broken = append(broken, "K8sObject.initDefaultNamespace not found")
+		L.WriteString("\ndef nsDefaulting : List (String × String × String) := []\n")
+	}
+
 	// ---- dereference sites
 	anchored := []string{"pkg/netpol/eval/internal/k8s/pod.go", "pkg/netpol/connlist/internal/ingressanalyzer/ingress_analyzer.go",
 		"pkg/netpol/eval/check.go", "pkg/netpol/eval/resources.go", "pkg/netpol/eval/internal/k8s/netpol.go",
